@@ -495,7 +495,9 @@ A_Merge(C, R) ==
                        !.ann = [x \in AllIds |-> IF x \in (C1.rxns \ C.rxns) THEN R.ann[x] ELSE C1.ann[x]],
                        !.note = [x \in AllIds |-> IF x \in (C1.rxns \ C.rxns) THEN R.note[x] ELSE C1.note[x]],
                        !.xcols = @ \cup R.xcols,
-                       !.xrows = @ \cup R.xrows \cup (R.mets \ C1.mets)]
+                       \* ("constraints are assumed to be the same if they have the same name": a plain row of
+                       \* right that is named like a metabolite of left is not copied)
+                       !.xrows = (@ \cup R.xrows \cup R.mets) \ C1.mets]
   IN Ok(C2)
 
 Apply(op, St) ==
@@ -567,6 +569,16 @@ Apply(op, St) ==
   ELSE IF op.a = "DetachedSetBounds" /\ St.det[s][op.r].present /\ op.r \notin St.m[s].rxns /\ op.lo <= op.hi THEN
        LET r == IF Len(St.ctx[s]) > 0 THEN Lift([St EXCEPT !.taint[s] = TRUE], s, Ok(St.m[s])) ELSE Lift(St, s, Ok(St.m[s])) IN
        SRes([r.st EXCEPT !.det[s][op.r].lb = op.lo, !.det[s][op.r].ub = op.hi], "none", TRUE, NoRet)
+  \* the Metabolite object is shared with the detached reaction objects: they see the new id, too
+  ELSE IF op.a = "RenameMetabolite" THEN
+       LET St1 == IF Len(St.ctx[s]) > 0 THEN [St EXCEPT !.taint[s] = TRUE] ELSE St
+           r == Lift(St1, s, ContentOp(op, St.m[s])) IN
+       IF r.raises # "none" THEN r
+       ELSE SRes([r.st EXCEPT !.det[s] = [x \in RxU |-> IF r.st.det[s][x].present
+                                                        THEN (IF r.st.det[s][x].st[op.new] # 0 THEN NoDet   \* (two objects, one id: not modelled)
+                                                              ELSE [r.st.det[s][x] EXCEPT !.st = SwapKey(@, op.met, op.new, 0)])
+                                                        ELSE r.st.det[s][x]]],
+                 r.raises, r.atomic, r.ret)
   ELSE IF op.a \in NotContextAware /\ Len(St.ctx[s]) > 0
        THEN Lift([St EXCEPT !.taint[s] = TRUE], s, ContentOp(op, St.m[s]))
   ELSE IF op.a = "SwitchSolver" /\ Len(St.ctx[s]) > 0 /\ op.solver # St.m[s].solver
